@@ -277,6 +277,9 @@ func (p c16) Run(c *core.Ctx) {
 		}
 		c.Fail(class, fmt.Sprintf("tag %s: placeholder resolution did not terminate within the Binder.Get budget (%s)", tag, r.Diverge.Error()), detail(nil))
 		return
+	case "stalled":
+		c.Fail("", fmt.Sprintf("tag %s: App.Run hangs (%s)", tag, r.OutcomeDetail()), detail(nil))
+		return
 	case "panic":
 		c.Fail("", fmt.Sprintf("tag %s: panic escaped App.Run: %v", tag, r.Panic), detail(map[string]any{"stack": core.Short(r.Stack, 1500)}))
 		return
